@@ -144,17 +144,27 @@ CMR_ERROR CMRlisthashtableRemove(
 #define DISCOPT_CMR_VERIF_HASH_RANGE_ACTIVE
 #endif
 #ifndef DISCOPT_CMR_VERIF_HASH_RANGE_ACTIVE
-#define RANGE_SIGNED_HASH (LLONG_MAX/2)
+#define RANGE_SIGNED_HASH (LLONG_MAX/4)
 #endif
 
 /**
- * \brief Projects \p value into the range [-RANGE_SIGNED_HASH, +RANGE_SIGNED_HASH] via a modulo computation.
+ * \brief Projects \p value into the range (-RANGE_SIGNED_HASH, +RANGE_SIGNED_HASH) via a modulo computation.
+ *
+ * The result is the unique representative of \p value modulo 2*RANGE_SIGNED_HASH-1 in that range. Callers pass the sum or
+ * difference of two projected values or three times a projected value, which cannot overflow since
+ * RANGE_SIGNED_HASH <= LLONG_MAX/4.
  */
 
 static inline
 long long projectSignedHash(long long value)
 {
-  return ((value + RANGE_SIGNED_HASH - 1) % (2*RANGE_SIGNED_HASH-1)) - (RANGE_SIGNED_HASH-1);
+  const long long modulus = 2*RANGE_SIGNED_HASH - 1;
+  value %= modulus;
+  if (value >= RANGE_SIGNED_HASH)
+    value -= modulus;
+  else if (value <= -RANGE_SIGNED_HASH)
+    value += modulus;
+  return value;
 }
 
 #ifdef __cplusplus
